@@ -15,8 +15,11 @@ import (
 	"reflect"
 	"strings"
 
+	"google.golang.org/protobuf/proto"
+
 	"github.com/tink-crypto/tink-go/v2/aead"
 	"github.com/tink-crypto/tink-go/v2/aead/aesgcm"
+	"github.com/tink-crypto/tink-go/v2/core/registry"
 	"github.com/tink-crypto/tink-go/v2/insecuresecretdataaccess"
 	"github.com/tink-crypto/tink-go/v2/key"
 	"github.com/tink-crypto/tink-go/v2/keyset"
@@ -80,6 +83,18 @@ func mustParams(v aesgcm.Variant) *aesgcm.Parameters {
 	return p
 }
 
+const kmOnlyURL = "type.googleapis.com/verif.c11.KeyManagerOnlyKey"
+
+type kmOnly struct{}
+
+func (kmOnly) Primitive([]byte) (any, error)        { return nil, fmt.Errorf("no primitive") }
+func (kmOnly) NewKey([]byte) (proto.Message, error) { return nil, fmt.Errorf("unsupported") }
+func (kmOnly) DoesSupport(u string) bool            { return u == kmOnlyURL }
+func (kmOnly) TypeURL() string                      { return kmOnlyURL }
+func (kmOnly) NewKeyData([]byte) (*tinkpb.KeyData, error) {
+	return &tinkpb.KeyData{TypeUrl: kmOnlyURL, Value: []byte{9, 8, 7, 6}, KeyMaterialType: tinkpb.KeyData_SYMMETRIC}, nil
+}
+
 func setup() {
 	gcmTink, gcmRaw = mustParams(aesgcm.VariantTink), mustParams(aesgcm.VariantNoPrefix)
 	kb := secretdata.NewBytesFromData(ref.KeyBytes("c11", 16), insecuresecretdataaccess.Token{})
@@ -95,10 +110,16 @@ func setup() {
 	unknownPrefix := aead.AES128GCMKeyTemplate()
 	unknownPrefix.OutputPrefixType = tinkpb.OutputPrefixType_UNKNOWN_PREFIX
 	unknownType := &tinkpb.KeyTemplate{TypeUrl: "type.googleapis.com/verif.NoSuchKey", Value: []byte{1, 2}, OutputPrefixType: tinkpb.OutputPrefixType_TINK}
-	templates = []*tinkpb.KeyTemplate{aead.AES128GCMKeyTemplate(), aead.AES256GCMNoPrefixKeyTemplate(), mac.HMACSHA256Tag128KeyTemplate(), nil, unknownPrefix, unknownType}
-	templateNames = []string{"AES128GCM/TINK", "AES256GCM/RAW", "HMACSHA256/TINK", "nil", "unknown-prefix", "unknown-type-url"}
-	templateValid = []int{2, 2, 2, 0, 0, 1}
-	templateRaw = []bool{false, true, false, false, false, false}
+	// a key type served only by a registry.KeyManager (no parameters parser / key creator): Manager.Add takes its
+	// legacy route (registry.NewKeyData + fallback key object)
+	if err := registry.RegisterKeyManager(kmOnly{}); err != nil {
+		panic(err)
+	}
+	kmOnlyT := &tinkpb.KeyTemplate{TypeUrl: kmOnlyURL, OutputPrefixType: tinkpb.OutputPrefixType_TINK}
+	templates = []*tinkpb.KeyTemplate{aead.AES128GCMKeyTemplate(), aead.AES256GCMNoPrefixKeyTemplate(), mac.HMACSHA256Tag128KeyTemplate(), nil, unknownPrefix, unknownType, kmOnlyT}
+	templateNames = []string{"AES128GCM/TINK", "AES256GCM/RAW", "HMACSHA256/TINK", "nil", "unknown-prefix", "unknown-type-url", "KeyManagerOnly/TINK"}
+	templateValid = []int{2, 2, 2, 0, 0, 1, 2}
+	templateRaw = []bool{false, true, false, false, false, false, false}
 
 	startOps = []op{{kind: opStart, name: "start:empty", tmpl: 0}, {kind: opStart, name: "start:parsed[1 EN* TINK,3 DESTROYED TINK]", tmpl: 1},
 		{kind: opStart, name: "start:parsed[0xFFFFFFFF DIS TINK,2 EN* RAW]", tmpl: 2}}
@@ -111,10 +132,10 @@ func setup() {
 			continue
 		}
 		for _, a := range ansSets {
-			if t == 2 && len(a) > 1 {
+			if (t == 2 || t == 6) && len(a) > 1 {
 				continue
 			}
-			normalOps = append(normalOps, op{kind: opAddTemplate, name: fmt.Sprintf("Add(%s) rnd=%x", templateNames[t], a), tmpl: t, answers: a, deep: len(a) > 1 || a[0] == 3 || a[0] == 2 || t == 2 || (t == 5 && a[0] != 1 && a[0] < freshBase)})
+			normalOps = append(normalOps, op{kind: opAddTemplate, name: fmt.Sprintf("Add(%s) rnd=%x", templateNames[t], a), tmpl: t, answers: a, deep: len(a) > 1 || a[0] == 3 || a[0] == 2 || t == 2 || (t == 5 && a[0] != 1 && a[0] < freshBase) || (t == 6 && a[0] != 1)})
 		}
 	}
 	for pi, pn := range []string{"AES128GCM/TINK", "AES128GCM/RAW"} {
